@@ -8,7 +8,9 @@ package c12
 import (
 	"context"
 	"fmt"
+	"io"
 	"sort"
+	"sync"
 	"testing"
 	"time"
 
@@ -20,6 +22,7 @@ import (
 	"github.com/yandex/pandora/core"
 	"github.com/yandex/pandora/core/engine"
 	"github.com/yandex/pandora/core/schedule"
+	"github.com/yandex/pandora/core/warmup"
 	"pgregory.net/rapid"
 )
 
@@ -50,6 +53,73 @@ type Case struct {
 	// ExtraPools: further pools of the same engine, each with its own startup profile (once(Once) then Const more
 	// instances over ConstMs) and a shared finite profile; ids are numbered per pool.
 	ExtraPools []ExtraPool `json:"extra_pools,omitempty"`
+	// DiscardOverflow: the pool setting discard_overflow (true is what the CLI sets by default) of every pool of the engine.
+	// It is about SHOTS (docs/eng/best_practices/discard-overflow.md: requests that are 2 s behind the request schedule are
+	// discarded); the startup profile says how many instances there will be (docs/eng/startup.md) and has no such rule:
+	// a startup token is served however late it is.
+	DiscardOverflow bool `json:"discard_overflow,omitempty"`
+	// SlowFirstMs > 0: creating the FIRST instance of the judged pool takes that long - SlowFirstAt "factory": the gun
+	// constructor of that instance, "bind": Gun.Bind of instance 0 (a gun that connects / logs in there). The pool creates
+	// its first instance synchronously, so the start loop is that far behind the startup profile afterwards and the tokens
+	// that became due meanwhile are served late (2 s and more when SlowFirstMs >= 2000). Modes other than shared_outlasts.
+	SlowFirstMs int    `json:"slow_first_instance_ms,omitempty"`
+	SlowFirstAt string `json:"slow_first_instance_at,omitempty"`
+}
+
+// slowBind makes Gun.Bind of instance 0 take d; it keeps the gun's io.Closer, and its warmup.WarmedUp when warm is set.
+type slowBind struct {
+	d    time.Duration
+	warm bool
+	mu   sync.Mutex
+	span [2]time.Time
+}
+
+func (s *slowBind) wrap(f func() (core.Gun, error)) func() (core.Gun, error) {
+	return func() (core.Gun, error) {
+		g, err := f()
+		if err != nil {
+			return nil, err
+		}
+		if s.warm {
+			return slowBindWarmGun{slowBindGun{g, s}}, nil
+		}
+		return slowBindGun{g, s}, nil
+	}
+}
+
+func (s *slowBind) measured() (from, to time.Time) {
+	s.mu.Lock()
+	defer s.mu.Unlock()
+	return s.span[0], s.span[1]
+}
+
+type slowBindGun struct {
+	core.Gun
+	s *slowBind
+}
+
+func (g slowBindGun) Bind(a core.Aggregator, deps core.GunDeps) error {
+	if deps.InstanceID == 0 {
+		from := time.Now()
+		time.Sleep(g.s.d)
+		g.s.mu.Lock()
+		g.s.span = [2]time.Time{from, time.Now()}
+		g.s.mu.Unlock()
+	}
+	return g.Gun.Bind(a, deps)
+}
+
+func (g slowBindGun) Close() error {
+	if c, ok := g.Gun.(io.Closer); ok {
+		return c.Close()
+	}
+	return nil
+}
+
+type slowBindWarmGun struct{ slowBindGun }
+
+func (g slowBindWarmGun) WarmUp(o *warmup.Options) (interface{}, error) {
+	return g.Gun.(warmup.WarmedUp).WarmUp(o)
 }
 
 // ExtraPool is a sibling pool of the judged pool.
@@ -230,6 +300,36 @@ func genCase(t *rapid.T) Case {
 			c.ExtraPools = append(c.ExtraPools, e)
 		}
 	}
+	// discard_overflow: on in two cases of three (the CLI default)
+	c.DiscardOverflow = rapid.IntRange(0, 2).Draw(t, "discardOverflow") != 0
+	// the first instance is slow to create (not in the mode with the 60 ms margin): one case of five of the modes in
+	// which nothing may cut the start short, one of twelve of the modes in which ammo / the shared profile end it
+	slowOf := 0
+	switch c.Mode {
+	case "long", "per_instance":
+		slowOf = 5
+	case "ammo_short", "shared_short":
+		slowOf = 12
+	}
+	if slowOf > 0 && rapid.IntRange(1, slowOf).Draw(t, "slowFirst") == 1 {
+		c.SlowFirstAt = rapid.SampledFrom([]string{"factory", "bind"}).Draw(t, "slowFirstAt")
+		if rapid.IntRange(0, 3).Draw(t, "slowFirstBelow2s") == 0 {
+			c.SlowFirstMs = rapid.IntRange(200, 1500).Draw(t, "slowFirstMs")
+		} else {
+			c.SlowFirstMs = rapid.IntRange(2300, 3300).Draw(t, "slowFirstMs")
+		}
+		// in half of them the profile goes on behind a pause of 0.2-2.5 s with 1-3 more instances: tokens that become due
+		// late in the creation of the first instance (less than 2 s overdue when it is done) or after it
+		if rapid.Bool().Draw(t, "slowFirstLateTokens") {
+			more := rapid.IntRange(1, 3).Draw(t, "lateTokens")
+			pause := rapid.IntRange(200, 2500).Draw(t, "latePauseMs")
+			c.Startup = sg.Node{Kind: "composite", Children: []sg.Node{c.Startup,
+				{Kind: "const", From: 0, DurNs: int64(pause) * int64(time.Millisecond)}, {Kind: "once", N: int64(more)}}}
+			if c.Buffered && c.Mode == "per_instance" {
+				c.Ammo += more * c.RPSTokens
+			}
+		}
+	}
 	return c
 }
 
@@ -254,8 +354,23 @@ func check(c Case, o *vf.Obs) error {
 	if c.WarmUpMs < 0 || c.WarmUpMs > 1000 || (c.WarmUpMs > 0 && !c.ImplicitStart) || (c.ImplicitStart && c.Mode == "shared_outlasts") {
 		return fmt.Errorf("bad case: warmup_ms / implicit_start")
 	}
-	guns := fake.NewGunWorld(fake.GunPlan{ShotUs: []int{c.ShotUs}, PanicAtShot: -1, FactoryErrAt: c.FactoryErrAt, BindErrAt: -1, Closer: true,
-		WarmUp: c.WarmUpMs > 0, WarmUpDelayUs: c.WarmUpMs * 1000})
+	if c.SlowFirstMs < 0 || c.SlowFirstMs > 5000 || (c.SlowFirstMs > 0) != (c.SlowFirstAt == "factory" || c.SlowFirstAt == "bind") ||
+		(c.SlowFirstMs == 0 && c.SlowFirstAt != "") || (c.SlowFirstMs > 0 && c.Mode == "shared_outlasts") {
+		return fmt.Errorf("bad case: slow_first_instance_ms / slow_first_instance_at")
+	}
+	gunPlan := fake.GunPlan{ShotUs: []int{c.ShotUs}, PanicAtShot: -1, FactoryErrAt: c.FactoryErrAt, BindErrAt: -1, Closer: true,
+		WarmUp: c.WarmUpMs > 0, WarmUpDelayUs: c.WarmUpMs * 1000}
+	if c.SlowFirstAt == "factory" {
+		// factory call 0 makes the gun the pool warms up, call 1 the gun of the first instance
+		gunPlan.FactoryDelayAt, gunPlan.FactoryDelayUs = 1, c.SlowFirstMs*1000
+	}
+	guns := fake.NewGunWorld(gunPlan)
+	newGun := guns.Factory
+	var slowB *slowBind
+	if c.SlowFirstAt == "bind" {
+		slowB = &slowBind{d: time.Duration(c.SlowFirstMs) * time.Millisecond, warm: gunPlan.WarmUp}
+		newGun = slowB.wrap(guns.Factory)
+	}
 	aggr := fake.NewAggregator(fake.AggPlan{})
 	m := pand.Metrics()
 	var shared *fake.Sched
@@ -289,8 +404,9 @@ func check(c Case, o *vf.Obs) error {
 		return nil, fmt.Errorf("bad mode")
 	}
 	conf := engine.Config{Pools: []engine.InstancePoolConfig{{
-		ID: "p", Provider: prov, Aggregator: aggr, NewGun: guns.Factory,
+		ID: "p", Provider: prov, Aggregator: aggr, NewGun: newGun,
 		RPSPerInstance: c.Mode == "per_instance", NewRPSSchedule: newSched, StartupSchedule: su,
+		DiscardOverflow: c.DiscardOverflow,
 	}}}
 	var extraGuns []*fake.GunWorld
 	for i, e := range c.ExtraPools {
@@ -309,7 +425,7 @@ func check(c Case, o *vf.Obs) error {
 			ID: fmt.Sprintf("x%d", i), Provider: fake.NewProvider(fake.ProviderPlan{Total: -1, Queue: 0, AfterLast: "wait_ctx"}),
 			Aggregator: fake.NewAggregator(fake.AggPlan{}), NewGun: w.Factory, RPSPerInstance: true,
 			NewRPSSchedule:  func() (core.Schedule, error) { return schedule.NewOnce(int64(e.Shots)), nil },
-			StartupSchedule: esu,
+			StartupSchedule: esu, DiscardOverflow: c.DiscardOverflow,
 		}
 		// siblings go first or last in the engine's list
 		if i%2 == 0 {
@@ -403,6 +519,35 @@ func check(c Case, o *vf.Obs) error {
 	for _, p := range parts {
 		tokenTimes = append(tokenTimes, p.Tokens...)
 	}
+	// --- how far behind the startup profile the creation of the first instance left the start loop (measured) ---
+	var lagFrom, lagTo time.Time
+	if c.SlowFirstAt == "factory" {
+		for _, sp := range guns.StepSpans() {
+			if sp.Kind == "factory" && sp.Call == 1 {
+				lagFrom, lagTo = sp.Start, sp.End
+			}
+		}
+	} else if slowB != nil {
+		lagFrom, lagTo = slowB.measured()
+	}
+	if c.SlowFirstMs > 0 && lagTo.IsZero() && runErr == nil && len(guns.GunsSnapshot()) > 1 {
+		return fmt.Errorf("harness: the slow creation of the first instance (%s, %d ms) never took place", c.SlowFirstAt, c.SlowFirstMs)
+	}
+	// tokens behind the first one that were 2 s and more overdue when the first instance was there / that were not yet
+	// (50 ms of margin: with implicit_start t0 is a lower bound of the profile's clock)
+	overdue2s, notOverdue2s := 0, 0
+	lagNote := ""
+	if !lagTo.IsZero() && len(tokenTimes) > 0 {
+		for _, tt := range tokenTimes[1:] {
+			if !tt.After(lagTo.Add(-2*time.Second - 50*time.Millisecond)) {
+				overdue2s++
+			} else if tt.After(lagTo.Add(-2 * time.Second)) {
+				notOverdue2s++
+			}
+		}
+		lagNote = fmt.Sprintf("; creating the first instance took %v (%s, until t0+%v): %d of the other %d startup tokens were 2s and more overdue by then, discard_overflow=%v - which is about shots that are behind the request schedule; startup tokens become instances however late they are served",
+			lagTo.Sub(lagFrom).Round(time.Millisecond), c.SlowFirstAt, lagTo.Sub(t0).Round(time.Millisecond), overdue2s, len(tokenTimes)-1, c.DiscardOverflow)
+	}
 	// --- sibling pools: ids are numbered per pool ---
 	extraInstances := 0
 	for i, w := range extraGuns {
@@ -486,14 +631,14 @@ func check(c Case, o *vf.Obs) error {
 	case "long":
 		if !factoryFailed && started != total {
 			if c.Buffered {
-				return fmt.Errorf("%d instances started, the startup profile has %d tokens (last one at t0+%v) and nothing cut the start short: the provider's Run returned at t0+%v after queueing all %d ammo, of which only %d were taken (ammo did not run out), 120s shared profile, cancel only after waiting 15s",
-					started, total, tokenTimes[len(tokenTimes)-1].Sub(t0), time.Unix(0, prov.RunReturnAt.Load()).Sub(t0), c.Ammo, len(prov.Delivered()))
+				return fmt.Errorf("%d instances started, the startup profile has %d tokens (last one at t0+%v) and nothing cut the start short: the provider's Run returned at t0+%v after queueing all %d ammo, of which only %d were taken (ammo did not run out), 120s shared profile, cancel only after waiting 15s%s",
+					started, total, tokenTimes[len(tokenTimes)-1].Sub(t0), time.Unix(0, prov.RunReturnAt.Load()).Sub(t0), c.Ammo, len(prov.Delivered()), lagNote)
 			}
 			if c.sharedComposite() {
-				return fmt.Errorf("%d instances started, the startup profile has %d tokens (last one at t0+%v) and nothing cut the start short: unbounded ammo, the shared RPS profile (head %+v, then 120s %s) has not finished - an unknown number of tokens left is not 'finished' -, cancel only after waiting 15s",
-					started, total, tokenTimes[len(tokenTimes)-1].Sub(t0), c.SharedHead, map[string]string{"": "const", "unlimited": "unlimited"}[c.SharedTail])
+				return fmt.Errorf("%d instances started, the startup profile has %d tokens (last one at t0+%v) and nothing cut the start short: unbounded ammo, the shared RPS profile (head %+v, then 120s %s) has not finished - an unknown number of tokens left is not 'finished' -, cancel only after waiting 15s%s",
+					started, total, tokenTimes[len(tokenTimes)-1].Sub(t0), c.SharedHead, map[string]string{"": "const", "unlimited": "unlimited"}[c.SharedTail], lagNote)
 			}
-			return fmt.Errorf("%d instances started, the startup profile has %d tokens and nothing cut the start short (unbounded ammo, 120s profile, cancel only after waiting 15s)", started, total)
+			return fmt.Errorf("%d instances started, the startup profile has %d tokens and nothing cut the start short (unbounded ammo, 120s profile, cancel only after waiting 15s)%s", started, total, lagNote)
 		}
 		if !factoryFailed && finishedBeforeCancel != 0 {
 			return fmt.Errorf("%d instances had already finished before the run was cancelled although ammo and profile were unlimited: the number of running instances was reduced", finishedBeforeCancel)
@@ -504,12 +649,12 @@ func check(c Case, o *vf.Obs) error {
 	case "per_instance":
 		// every instance has its own finite profile: one of them finishing is no reason to stop starting the others
 		if !factoryFailed && started != total && c.Buffered {
-			return fmt.Errorf("%d instances started, the startup profile has %d tokens (last one at t0+%v); profiles are per instance (%d tokens over 10ms each), the provider's Run returned at t0+%v after queueing all %d ammo, of which only %d were taken (ammo did not run out), nothing failed, nobody cancelled",
-				started, total, tokenTimes[len(tokenTimes)-1].Sub(t0), c.RPSTokens, time.Unix(0, prov.RunReturnAt.Load()).Sub(t0), c.Ammo, len(prov.Delivered()))
+			return fmt.Errorf("%d instances started, the startup profile has %d tokens (last one at t0+%v); profiles are per instance (%d tokens over 10ms each), the provider's Run returned at t0+%v after queueing all %d ammo, of which only %d were taken (ammo did not run out), nothing failed, nobody cancelled%s",
+				started, total, tokenTimes[len(tokenTimes)-1].Sub(t0), c.RPSTokens, time.Unix(0, prov.RunReturnAt.Load()).Sub(t0), c.Ammo, len(prov.Delivered()), lagNote)
 		}
 		if !factoryFailed && started != total {
-			return fmt.Errorf("%d instances started, the startup profile has %d tokens; profiles are per instance (%d tokens over 10ms each), ammo is unlimited, nothing failed, nobody cancelled: an instance finishing its own profile must not cut the start short (startup lasts %v)",
-				started, total, c.RPSTokens, startupSpan)
+			return fmt.Errorf("%d instances started, the startup profile has %d tokens; profiles are per instance (%d tokens over 10ms each), ammo is unlimited, nothing failed, nobody cancelled: an instance finishing its own profile must not cut the start short (startup lasts %v)%s",
+				started, total, c.RPSTokens, startupSpan, lagNote)
 		}
 	case "shared_outlasts":
 		if !factoryFailed && started != total && runErr == nil {
@@ -596,6 +741,22 @@ func check(c Case, o *vf.Obs) error {
 		"warmup_then_startup_spread_in_time")
 	o.ClassIf(c.ImplicitStart && c.WarmUpMs > 0 && total >= 2 && !factoryFailed && tokenTimes[len(tokenTimes)-1].Sub(t0) < time.Duration(c.WarmUpMs)*time.Millisecond && len(distinctInstants) >= 2,
 		"warmup_longer_than_startup_spread")
+	o.ClassIf(c.DiscardOverflow, "discard_overflow")
+	if !lagTo.IsZero() {
+		lag := lagTo.Sub(lagFrom)
+		mustStart := (c.Mode == "long" || c.Mode == "per_instance") && !factoryFailed
+		o.Class("slow_first_instance")
+		o.Class("slow_first_instance/" + c.SlowFirstAt)
+		o.ClassIf(lag < 2*time.Second, "slow_first_instance_lt_2s")
+		o.ClassIf(lag >= 2*time.Second, "slow_first_instance_ge_2s")
+		o.ClassIf(overdue2s > 0, "startup_tokens_ge_2s_overdue")
+		o.ClassIf(overdue2s > 0 && c.DiscardOverflow, "startup_tokens_ge_2s_overdue_discard_overflow")
+		o.ClassIf(overdue2s > 0 && c.DiscardOverflow && mustStart, "startup_tokens_ge_2s_overdue_discard_overflow_all_must_start")
+		o.ClassIf(overdue2s > 0 && c.DiscardOverflow && mustStart, "startup_tokens_ge_2s_overdue_discard_overflow_all_must_start/"+c.Mode)
+		o.ClassIf(overdue2s > 0 && c.DiscardOverflow && mustStart, "startup_tokens_ge_2s_overdue_discard_overflow_all_must_start/"+c.SlowFirstAt)
+		o.ClassIf(overdue2s > 0 && notOverdue2s > 0 && c.DiscardOverflow && mustStart, "startup_tokens_partly_ge_2s_overdue_discard_overflow_all_must_start")
+		o.ClassIf(overdue2s > 0 && !c.DiscardOverflow && mustStart, "startup_tokens_ge_2s_overdue_no_discard_overflow_all_must_start")
+	}
 	o.ClassIf(len(c.ExtraPools) > 0, "several_pools")
 	o.ClassIf(extraInstances >= 2 && len(ids) >= 2, "several_pools_ge_2_instances_each")
 	o.ClassIf(factoryFailed, "cut_short_creation_failed")
